@@ -115,6 +115,14 @@ def regen_consts():
         values["frame_limit_translation"] = "ok (%d lines)" % gen.count("\n")
     except (xlate_fl.XlateError, OSError, IndexError, ValueError, KeyError, TypeError) as ex:
         values.setdefault("_errors", {})["frame_limit_translation"] = "samply/src/shared/stack_depth_limiting_frame_iter.rs: %s" % ex
+    # the fourth translator: fxprof-processed-profile/src/lib_mappings.rs -> Generated/LibMappingsGen.v (C11), same rules
+    import xlate_lm
+    try:
+        gen = xlate_lm.generate(open(os.path.join(REPO, "fxprof-processed-profile", "src", "lib_mappings.rs")).read())
+        write_if_changed(os.path.join(COQ, "Generated", "LibMappingsGen.v"), gen)
+        values["lib_mappings_translation"] = "ok (%d lines)" % gen.count("\n")
+    except (xlate_lm.XlateError, OSError, IndexError, ValueError, KeyError, TypeError) as ex:
+        values.setdefault("_errors", {})["lib_mappings_translation"] = "fxprof-processed-profile/src/lib_mappings.rs: %s" % ex
     return True, "", values
 
 
